@@ -156,6 +156,69 @@ func runHalfClose(addr string, n int) string {
 	return fmt.Sprintf("replied=%d/%d", len(ids), n)
 }
 
+// tsBigUp answers every query with a 60000-byte message
+type tsBigUp struct{}
+
+const tsBigLen = 60000
+
+func (tsBigUp) Resolve(ctx context.Context, q query.Query, buf []byte) (int, resolver.ResolveInfo, error) {
+	return synthResp(q.ID, tsBigLen, 7, buf), resolver.ResolveInfo{}, nil
+}
+
+// runStallRead: n pipelined queries with 60000-byte answers to a proxy whose request timeout is 300 ms; the client does not
+// read for <ms> (its receive window and the server's send buffer fill up, the server's writes block), then reads everything
+// and asks once more.  Every reply must arrive whole, behind a correct length prefix.
+func runStallRead(addr string, n, ms int) string {
+	c, err := net.DialTimeout("tcp", addr, time.Second)
+	if err != nil {
+		return "ERR " + err.Error()
+	}
+	defer c.Close()
+	want := map[uint16]bool{}
+	var s []byte
+	for i := 0; i < n; i++ {
+		q := kindQuery(0x2000+i, "ok")
+		want[uint16(0x2000+i)] = true
+		s = append(s, be16(len(q))...)
+		s = append(s, q...)
+	}
+	go func() { _, _ = c.Write(s) }()
+	time.Sleep(time.Duration(ms) * time.Millisecond)
+	whole := 0
+	exp := make([]byte, tsBigLen)
+	readOne := func() bool {
+		_ = c.SetReadDeadline(time.Now().Add(3 * time.Second))
+		var l uint16
+		if err := binary.Read(c, binary.BigEndian, &l); err != nil {
+			return false
+		}
+		body := make([]byte, l)
+		if _, err := io.ReadFull(c, body); err != nil {
+			return false
+		}
+		if int(l) == tsBigLen {
+			id := uint16(body[0])<<8 | uint16(body[1])
+			synthResp(id, tsBigLen, 7, exp)
+			if want[id] && string(body) == string(exp) {
+				delete(want, id)
+				whole++
+			}
+		}
+		return true
+	}
+	for i := 0; i < n; i++ {
+		if !readOne() {
+			break
+		}
+	}
+	q := kindQuery(0x3fff, "ok")
+	want[0x3fff] = true
+	if _, err := c.Write(append(be16(len(q)), q...)); err == nil {
+		readOne()
+	}
+	return fmt.Sprintf("whole=%d/%d", whole, n+1)
+}
+
 func init() {
 	areas["tcpstream"] = func(c *Ctx) error {
 		fast := &tsUp{}
@@ -170,10 +233,25 @@ func init() {
 			return err
 		}
 		defer srvSlow.stop()
+		srvBig, err := startServerWith(tsBigUp{}, 64, 300*time.Millisecond)
+		if err != nil {
+			return err
+		}
+		defer srvBig.stop()
 		var mu sync.Mutex
 		run := func(l string) {
 			f := strings.Fields(l)
 			switch {
+			case len(f) == 3 && f[0] == "stallread":
+				var n, ms int
+				fmt.Sscanf(f[1], "%d", &n)
+				fmt.Sscanf(f[2], "%d", &ms)
+				if n < 1 || n > 400 || ms < 0 || ms > 5000 {
+					c.Emit(l, "bad-op")
+					return
+				}
+				c.Stat("op:stallread")
+				c.Emit(l, runStallRead(srvBig.addr, n, ms))
 			case len(f) == 3 && f[0] == "tcpstream":
 				var cuts []int
 				if f[2] != "-" {
@@ -205,6 +283,10 @@ func init() {
 		r := NewRng(c.seed)
 		var lines []string
 		for i := 0; i < c.n; i++ {
+			if i == c.n/2 {
+				lines = append(lines, fmt.Sprintf("stallread %d %d", 150+r.Intn(100), 900+r.Intn(400)))
+				continue
+			}
 			if r.Chance(4) {
 				c.Stat("op:halfclose")
 				lines = append(lines, fmt.Sprintf("halfclose %d %d", 1+r.Intn(4), r.Pick([]int{0, 5, 40})))
@@ -286,7 +368,7 @@ func init() {
 		var wg sync.WaitGroup
 		sem := make(chan struct{}, 12)
 		for i, l := range lines {
-			if strings.HasPrefix(l, "halfclose ") {
+			if strings.HasPrefix(l, "halfclose ") || strings.HasPrefix(l, "stallread ") {
 				continue
 			}
 			if len(l) > 8000 {
@@ -324,7 +406,7 @@ func init() {
 		}
 		wg.Wait()
 		for i, l := range lines {
-			if strings.HasPrefix(l, "halfclose ") {
+			if strings.HasPrefix(l, "halfclose ") || strings.HasPrefix(l, "stallread ") {
 				run(l)
 			} else {
 				c.Emit(l, outs[i])
